@@ -80,7 +80,7 @@ CONFIGS = {
 # attributes whose value the compiler or a hand-written branch rewrites between reading and saving (found by running the tie;
 # each is a documented exclusion, not a silent one): the table writer does see them, but not with the value that was read
 UNSTABLE = {
-    "kGeomAttrs": {"margin", "gap"},
+    "kLightAttrs": {"dir"},          # normalised by the compiler
 }
 
 TINY = 1e-9      # deviations below this (normalised) at precision 17 are number-formatting effects
@@ -340,6 +340,16 @@ def run(ctx):
     for oid, txt in directed.items():
         meta[oid] = {"origin": "directed (value next to a default / an integer)", "xml": txt}
         ops17.append("xml %s %s" % (oid, txt.encode().hex()))
+    # directed mjSpec programs: a joint equality with objtype set; a numeric whose size exceeds its data
+    from gen.enums import E
+    two = ["body 1 0", "joint 2 1", "name 2 ja", "geom 3 1", "set 3 size 0.1", "body 4 0", "joint 5 4", "name 5 jb", "geom 6 4", "set 6 size 0.1"]
+    dspec = {
+        "s0": two + ["equality 7", "set 7 type %d" % E("mjEQ_JOINT"), "set 7 objtype %d" % E("mjOBJ_JOINT"), "set 7 name1 ja", "set 7 name2 jb"],
+        "s1": two + ["numeric 7", "name 7 num1", "set 7 size 40", "set 7 data 1.5 -2"],
+    }
+    for oid, lines_ in dspec.items():
+        meta[oid] = {"origin": "directed mjSpec program", "description": lines_}
+        ops17 += ["model " + oid] + lines_ + ["end"]
 
     stats = {"ok": 0, "tiny": 0, "skip": 0, "diff": 0, "fail": 0}
     maxdev6 = 0.0
@@ -378,10 +388,11 @@ def run(ctx):
             dev = float(r.get("maxdev", 0))
             ints_differ = any("." not in f[3] and "e" not in f[3] and "." not in f[4] and "e" not in f[4] and f[3] not in ("nan", "inf", "-inf")
                               and f[0] not in ("nbuffer",) for f in fl)
-            if prec == 17:
-                special = classify(fl)
+            special = classify(fl)
+            numeric_oob = False
+            if prec == 17 or special or any(f[0] == "numeric_data" for f in fl):
                 numeric_oob = any(f[0] == "numeric_data" for f in fl) and "set" in " ".join(m.get("description", [])) and \
-                    any(re.match(r"set \d+ size 3", l) for l in m.get("description", []))
+                    any(re.match(r"set \d+ size \d+", l) for l in m.get("description", []))
                 if special:
                     key, what = special, "eq_objtype of an equality built through mjSpec with objtype set is not reproduced by the saved MJCF (the reader leaves objtype at its default for joint/tendon equalities)"
                 elif numeric_oob and all(f[0] in ("numeric_data", "eq_objtype") for f in fl):
